@@ -176,6 +176,14 @@ def cases(run, rng):
     for D in QUERY_CLASSES:
         lits = [T.Interval(hours=2, minutes=5), T.Interval(days=3)]
         exp = [x.get_sql(D.SQL_CONTEXT) for x in lits]
+        # a composite interval is written in the SAME form as a single-unit one of that dialect (unit inside or outside the quotes)
+        outside = exp[1].endswith("' DAY")
+        for comp, unit in ((T.Interval(hours=2, minutes=5), "HOUR_MINUTE"), (T.Interval(years=1, months=2), "YEAR_MONTH"), (T.Interval(days=1, seconds=3), "DAY_SECOND")):
+            ctext = comp.get_sql(D.SQL_CONTEXT)
+            SEEN[0] += 1
+            if not (ctext.endswith("' " + unit) if outside else ctext.endswith(" " + unit + "'")):
+                FAIL.append({"kind": "a composite interval is not written in the dialect's own form (single-unit form: %s)" % exp[1], "class": QNAMES[D], "construct": "interval literal",
+                             "leaf": unit, "depth": 0, "mode": "inline", "with_generic_inner": ctext, "with_dialect_inner": "INTERVAL '...%s" % (("' " + unit) if outside else (" " + unit + "'"))})
         for kind in ("interval", "interval-function-arg"):
             for depth in (1, 2):
                 for cname, f in constructs(D, P.Query, depth, kind).items():
